@@ -2,11 +2,11 @@
    Carrier of the theorems: exact rationals (instance QC of the carrier-generic model); the generic
    tree theorems hold for every carrier, hence also for the binary64 instance FC that the
    correspondence check runs bit-exactly against the implementation. *)
-From Coq Require Import List Arith Lia ZArith QArith PrimFloat.
+From Coq Require Import List Arith Lia ZArith QArith PrimFloat Morphisms.
 Import ListNotations.
 From AgileV Require Import Base.Prelude.
 From AgileV Require C09.Model C09.Proofs.
-From AgileV Require Import C11.Model C11.TreeProofs C11.SumProofs C11.MinProofs C11.RangeProofs C11.PerProofs C11.UpdateProofs C11.GenericProofs C11.Joint C11.JointProofs C11.Strict C11.StrictProofs C11.PowProofs.
+From AgileV Require Import C11.Model C11.TreeProofs C11.SumProofs C11.MinProofs C11.RangeProofs C11.PerProofs C11.UpdateProofs C11.GenericProofs C11.Joint C11.JointProofs C11.Strict C11.StrictProofs C11.PowProofs C11.Round3Proofs.
 Local Open Scope nat_scope.
 
 (* ---------------------------------------------------------------- the segment trees ------- *)
@@ -273,6 +273,77 @@ Theorem power_is_admissible_powb : forall (a : Z) (b : positive) (f : Q -> Q), (
   (forall x, (0 < x)%Q -> (0 < f x)%Q) /\ (forall x y, (0 < x)%Q -> (x <= y)%Q -> (f y <= f x)%Q).
 Proof. exact negative_power_spec. Qed.
 Print Assumptions power_is_admissible_powb.
+
+(* ---- round 3 ---- *)
+(* the root of a consistent tree depends only on its CURRENT leaves, for every carrier and operation (so
+   also in binary64): whatever larger priorities a slot held before leave no residue in sum()/min() *)
+Theorem root_depends_only_on_leaves : forall (T : Type) (op : T -> T -> T) (dflt : T) d (l l' : list T),
+  Inv op dflt (2 ^ d) l -> Inv op dflt (2 ^ d) l' ->
+  (forall k, k < 2 ^ d -> leaf dflt (2 ^ d) l k = leaf dflt (2 ^ d) l' k) ->
+  root op dflt (2 ^ d) l = root op dflt (2 ^ d) l'.
+Proof. exact @root_depends_only_on_leaves_lemma. Qed.
+Print Assumptions root_depends_only_on_leaves.
+
+Theorem overwrite_forgets : forall (T : Type) (op : T -> T -> T) (dflt : T) d (l : list T) idx v w,
+  Inv op dflt (2 ^ d) l -> idx < 2 ^ d ->
+  root op dflt (2 ^ d) (setitem op dflt (2 ^ d) (setitem op dflt (2 ^ d) l idx v) idx w) =
+  root op dflt (2 ^ d) (setitem op dflt (2 ^ d) l idx w).
+Proof. exact @overwrite_forgets_lemma. Qed.
+Print Assumptions overwrite_forgets.
+
+(* update_priorities(batch) followed by add(n): the n new transitions get powa(M), M = the maximum of the
+   old running maximum and ALL floored priorities of the batch (it dominates them and is one of them),
+   wherever the maximum stands in the batch *)
+Theorem update_then_add : forall powa : Q -> Q, (forall x, (0 < x)%Q -> (0 < powa x)%Q) ->
+  forall ps s n, per_inv s -> Forall (fun ip => fst ip < size s) ps ->
+  exists s1 s2 M,
+    per_update QC powa s ps = (s1, false) /\ per_add QC powa s1 n = Some s2 /\ per_inv s2 /\
+    M = max_prio s1 /\ max_prio s2 = M /\
+    (max_prio s <= M)%Q /\ Forall (fun ip => (floor_prio QC (snd ip) <= M)%Q) ps /\
+    (M = max_prio s \/ exists ip, In ip ps /\ M = floor_prio QC (snd ip)) /\
+    forall j, j < n -> leaf 0%Q (tcap s2) (sumt s2) ((tree_ptr s + j) mod max_size s) = powa M.
+Proof. exact update_then_add_lemma. Qed.
+Print Assumptions update_then_add.
+
+(* for a multiplicative x -> x^-beta the quotient of two weights is the quotient of powb of the two
+   priorities: len(buffer) and the total cancel *)
+Theorem weight_ratio : forall powb : Q -> Q,
+  (forall x, (0 < x)%Q -> (0 < powb x)%Q) -> Proper (Qeq ==> Qeq) powb ->
+  (forall x y, (0 < x)%Q -> (0 < y)%Q -> (powb (x * y) == powb x * powb y)%Q) ->
+  forall s i j, per_inv s -> 0 < size s -> i < size s -> j < size s ->
+  (powb (NP s i) / powb (NP s j) ==
+   powb (leaf 0%Q (tcap s) (sumt s) i) / powb (leaf 0%Q (tcap s) (sumt s) j))%Q.
+Proof. exact weight_ratio_lemma. Qed.
+Print Assumptions weight_ratio.
+
+(* a raising update_priorities call caught by the caller (any carrier, repaired assertion): exactly the pairs
+   before the first index that holds no transition were applied and the call reports the failure; by
+   strict_invariant the buffer keeps its invariant and goes on working *)
+Theorem raising_update_applies_prefix : forall (C : carrier) (powa : C -> C) ps1 (s : per C) i p r,
+  Forall (fun ip => fst ip < size s) ps1 -> size s <= i ->
+  per_update_g C powa true s (ps1 ++ (i, p) :: r) = (fst (per_update_g C powa true s ps1), true) /\
+  snd (per_update_g C powa true s ps1) = false.
+Proof. exact raising_update_applies_prefix_lemma. Qed.
+Print Assumptions raising_update_applies_prefix.
+
+Example raising_update_example :
+  let s := per_run_g QC (fun x => x) true 4 [Add 2] in
+  let '(s', raised) := per_update_g QC (fun x => x) true s [(1, 5%Q); (3, 9%Q); (0, 7%Q)] in
+  raised = true /\ leaf 0%Q (tcap s') (sumt s') 1 = 5%Q /\ leaf 0%Q (tcap s') (sumt s') 0 = 1%Q /\
+  leaf 0%Q (tcap s') (sumt s') 3 = 0%Q /\ max_prio s' = 5%Q.
+Proof. vm_compute. repeat split. Qed.
+
+(* non-vacuity: the binary64 sum tree after 1e17 and then 0.5 in the same slot has exactly the root of the
+   tree that only ever saw 0.5 (1.5), and x -> 1/x meets the hypotheses of weight_ratio *)
+Example overwrite_forgets_binary64 :
+  let t0 := setitem PrimFloat.add 0%float 2 (setitem PrimFloat.add 0%float 2 (tree_init 0%float 2) 0 1%float) 1 1%float in
+  let t := setitem PrimFloat.add 0%float 2 (setitem PrimFloat.add 0%float 2 t0 0 0x1.6345785d8ap+56%float) 0 0.5%float in
+  PrimFloat.eqb (root PrimFloat.add 0%float 2 t) 1.5%float = true.
+Proof. vm_compute. reflexivity. Qed.
+
+Example weight_ratio_hypotheses_satisfiable : Proper (Qeq ==> Qeq) Qinv /\
+  (forall x y, (0 < x)%Q -> (0 < y)%Q -> (/ (x * y) == / x * / y)%Q).
+Proof. exact qinv_mult_proper. Qed.
 
 (* clear(): afterwards the buffer behaves as a new one (trees, pointer and running maximum reset) *)
 Theorem clear_fresh : forall (powa : Q -> Q) m ops1 ops2,
